@@ -34,6 +34,9 @@ def pairings(quick):
     P.append(("Hamming(7,4)", lambda: E.HammingCodeEncoder(3), "BruteForceMLDecoder", lambda e: D.BruteForceMLDecoder(e), "hard", 1, True))
     P.append(("Hamming(15,11)", lambda: E.HammingCodeEncoder(4), "BruteForceMLDecoder", lambda e: D.BruteForceMLDecoder(e), "hard", 1, True))      # a codebook of 2048 words
     P.append(("Hamming(8,4)", lambda: E.HammingCodeEncoder(3, extended=True), "SyndromeLookupDecoder", lambda e: D.SyndromeLookupDecoder(e), "hard", 1, True))
+    # the same code with other information sets, built after the default layout in the same process (nothing may be shared between the decoder objects)
+    P.append(("Hamming(7,4)/right", lambda: E.HammingCodeEncoder(3, information_set="right"), "SyndromeLookupDecoder", lambda e: D.SyndromeLookupDecoder(e), "hard", 1, True))
+    P.append(("Hamming(7,4)/[0,2,4,6]", lambda: E.HammingCodeEncoder(3, information_set=[0, 2, 4, 6]), "SyndromeLookupDecoder", lambda e: D.SyndromeLookupDecoder(e), "hard", 1, True))
     P.append(("BCH(15,7)", lambda: E.BCHCodeEncoder(4, 5), "BerlekampMasseyDecoder", lambda e: D.BerlekampMasseyDecoder(e), "hard", 2, True))
     P.append(("RM(1,3)", lambda: E.ReedMullerCodeEncoder(1, 3), "BruteForceMLDecoder", lambda e: D.BruteForceMLDecoder(e), "hard", 1, True))
     P.append(("Repetition(3)", lambda: E.RepetitionCodeEncoder(3), "BruteForceMLDecoder", lambda e: D.BruteForceMLDecoder(e), "hard", 1, True))
